@@ -147,7 +147,7 @@ def edges_where(body, pred):
         for lab, tb in br[1]:
             by_t.setdefault(tb, []).append(lab)
         for tb, labs in by_t.items():
-            if all(pred(br[0], lab) for lab in labs):
+            if all(pred(br[0], lab) or any(pred(c2, l2) for c2, l2 in body.synonyms(br[0], lab)) for lab in labs):
                 out.add((a, tb))
     return out
 
